@@ -4,6 +4,7 @@ package interp
 // bridge used when an external function is called with concrete arguments.
 
 import (
+	"context"
 	"crypto/hmac"
 	"fmt"
 	"go/token"
@@ -481,8 +482,16 @@ func callIfaceNative(i *interpreter, fr *frame, meth string, args []value) value
 		case "Value":
 			return ctxLookup(fr, r, args[1])
 		case "Err":
+			if r.isCancelled() {
+				return mkNativeErr(context.Canceled)
+			}
 			return iface{}
 		case "Done":
+			if r.isCancelled() {
+				ch := make(chan value)
+				close(ch)
+				return ch
+			}
 			return (chan value)(nil)
 		case "Deadline":
 			return tuple{zero(timeTypeOf(i)), false}
